@@ -361,6 +361,10 @@ def guards_of(pd, cfg):
                     g.append("mt-field-collision")
         if cfg.get("static_param_guards"):       # decided on the source for these inputs (gen_class)
             g = [x for x in g if x not in ("tf-param-local", "mt-param-local", "tf-result-local")]
+        if cfg.get("inside_all_guards"):         # hand-written corpus: inside every guard BY CONSTRUCTION; a tree whose data model
+            # moves them into a name class (e.g. stops renaming `http`) must face the oracle; classes that are decided by the
+            # source and the options alone (ensure line) stay
+            g = [x for x in g if x in ("mt-ensure-generic", "mt-ensure-import", "c14-tparam-renamed")]
         out[i["name"]] = sorted(set(g) - off)
     return out
 
@@ -593,7 +597,7 @@ def gen_module(rng, k):
 
 
 SHAPES = ["ShapesPlain", "ShapesVariadic1", "ShapesVariadic0", "ShapesVariadic2", "ShapesAllocated", "ShapesGeneric", "ShapesConstraint",
-          "ShapesEmbedded", "ShapesEmpty"]
+          "ShapesEmbedded", "ShapesLongUnnamed", "ShapesLongNamed", "ShapesEmpty"]
 
 
 def corpus_module():
@@ -828,6 +832,7 @@ def make_configs(rng, modules, thorough):
                 variants = optlist if thorough else [optlist[(j + d) % len(optlist)] for d in range(3)]
             for o in variants:
                 cfgs.append({"module": m, "files": m.get("files"), "template": t, "formatter": f, "placement": p, "opts": dict(o),
+                             "inside_all_guards": bool(m.get("corpus")),
                              "filename": "mocks_test.go" if (k + j) % 2 == 0 else "mocks.go",
                              "src_name": m["src"]["name"], "src_path": m["src"]["path"], "pkgnames": pkgnames_of(m), "stream": "main"})
     for n, c in enumerate(cfgs):
